@@ -4,7 +4,7 @@
    that it never shows up with the budget fuel_for, and measures the real parser's step counts). *)
 From Coq Require Import List NArith ZArith Bool String Ascii Lia.
 Require Import Base.Common Gen.LexTable Lex.Model Lex.Invariants Lex.ImplFacts Lex.C04Proofs Lex.C07Proofs
-               Cur.Model Tree.Value Tree.Helpers Gen.Static Parse.Prim Parse.Model Parse.Sweep.
+               Cur.Model Tree.Value Tree.Helpers Gen.Static Parse.Prim Parse.Model Parse.Sweep Parse.Suffix Parse.Fuel.
 Import ListNotations.
 Open Scope string_scope.
 
@@ -31,6 +31,30 @@ Proof. intros fuel f d a ts k Ha H. pose proof (RP_run fuel f d a ts Ha) as R. r
 Theorem C07_statements_never_crash : forall n fuel d ts k, statements_loop n fuel d ts [] <> Err (Crash k).
 Proof. intros n fuel d ts k H. pose proof (RP_statements_loop n fuel d ts [] (Forall_nil _)) as R. rewrite H in R. discriminate R. Qed.
 
+(* 2b. TERMINATION.  The parser model recurses on an explicit budget; the budget its entry points use (fuel_for: linear in the size of
+   the token tree) is adequate for EVERY parse function, dialect, argument and token list, and so is the loop budget of parse_statements
+   (one more than the number of tokens) for every script: the model's own OutOfFuel is unreachable.  Proof (Parse/Fuel.v, third sweep
+   over all function bodies): the functions are ranked along the calls that pass the same tokens on; every other recursive call is made
+   after a token was consumed or on the children of a bracket group; every inner loop consumes a token per iteration. *)
+Theorem C07_parser_terminates : forall f d a ts, run (fuel_for ts) f d a ts <> Err OutOfFuel.
+Proof. exact fuel_for_adequate. Qed.
+Theorem C07_script_terminates : forall d ts, statements_loop (Datatypes.S (List.length ts)) (fuel_for ts) d ts [] <> Err OutOfFuel.
+Proof. exact script_budget_adequate. Qed.
+(* together: on every token list every entry point ends in a tree or in one of the library's own errors *)
+Definition lib_err (e : err) : bool := match e with Crash _ | OutOfFuel => false | _ => true end.
+Theorem C07_parser_total : forall f d ts, match run (fuel_for ts) f d None ts with Ok _ => True | Err e => lib_err e = true end.
+Proof.
+  intros f d ts. pose proof (RP_run (fuel_for ts) f d None ts I) as R. pose proof (fuel_for_adequate f d None ts) as N.
+  destruct (run (fuel_for ts) f d None ts) as [x|e]; [exact I|]. destruct e; try reflexivity; [discriminate R|exfalso; apply N; reflexivity].
+Qed.
+Theorem C07_script_total : forall d ts,
+  match statements_loop (Datatypes.S (List.length ts)) (fuel_for ts) d ts [] with Ok _ => True | Err e => lib_err e = true end.
+Proof.
+  intros d ts. pose proof (RP_statements_loop (Datatypes.S (List.length ts)) (fuel_for ts) d ts [] (Forall_nil _)) as R.
+  pose proof (script_budget_adequate d ts) as N.
+  destruct (statements_loop _ _ d ts []) as [x|e]; [exact I|]. destruct e; try reflexivity; [discriminate R|exfalso; apply N; reflexivity].
+Qed.
+
 (* 3. A rejected input leaves no trace: the models are pure functions of their arguments -- there is no state a failed
    call could leave behind (determinism is the only thing to state) *)
 Theorem C07_no_trace : forall fuel f d a ts r1 r2, run fuel f d a ts = r1 -> run fuel f d a ts = r2 -> r1 = r2.
@@ -48,5 +72,9 @@ Print Assumptions C07_lexer_fails_closed.
 Print Assumptions C07_lexer_fails_closed'.
 Print Assumptions C07_parser_never_crashes.
 Print Assumptions C07_statements_never_crash.
+Print Assumptions C07_parser_terminates.
+Print Assumptions C07_script_terminates.
+Print Assumptions C07_parser_total.
+Print Assumptions C07_script_total.
 Print Assumptions C07_no_trace.
 Print Assumptions C07_example.
